@@ -431,6 +431,8 @@ def _worker(task):
     body = parse_body(prog, n)
     cfg = {"max_updepth": 0, "hooks": S.hooks(), "max_steps": 40000, "max_inline": 80}
     res = explore_under(prog, body, cfg, root, max_paths=200000)
+    if any(p is None for p in res):
+        raise AnalysisError("path budget exceeded")
     out = []
     for p in res:
         out.extend(judge_parse_path(prog, S, p, n))
